@@ -160,6 +160,14 @@ def run(ctx: Ctx):
     bl_r = [ast.unparse(x) for x in _enclosing_block(lou.node, rn.ast)]
     ok = "comm_degree[current_comm] -= v_degree" in bl_r and "comm_degree[best_comm] += v_degree" in bl_r and "node_to_comm[v] = best_comm" in bl_r and ast.unparse(add[0]) == "comm_nodes[best_comm].add(v)" and ast.unparse(rem[0]) == "comm_nodes[current_comm].remove(v)"
     ctx.ob("C15-O3", "R16 PAIRED-EFFECTS", lou, "membership set, degree sum and node->community map move together, by the node's own degree", ok, "", node=rem[0])
+    lcfg_ = cfg_of(lou.node)
+    lgv_ = GuardView(lcfg_)
+    for s in result_sites(lou):
+        ob_ = s.arg("objective")
+        if isinstance(ob_, ast.Constant):
+            at_ = lgv_.guard_atoms(s.node, stable_only=False)
+            free = any(a_ in at_ for a_ in (atom_of("total_weight == 0"), atom_of("n == 0"), atom_of("n == 1"), atom_of("n <= 1"), "F:node_list", atom_of("len(node_list) == 1"), atom_of("len(node_list) == 0")))
+            ctx.ob("C15-O3", "R5 PAIRING", lou, f"a modularity written as the constant {ast.unparse(ob_)} is published only for a graph without edges or with at most one node", free, f"guards {sorted(at_)[:6]}: the modularity of a partition depends on the resolution (one community holding every edge scores 1 - resolution), a constant is right for one resolution only", node=s.call)
     for s in result_sites(lou):
         if ast.unparse(s.arg("solution")) == "communities":
             t = ast.unparse(lou.node)
@@ -457,7 +465,26 @@ def _v_adjacency_skips_scanned_neighbours(tree):
     g.body.insert(g.body.index(outer), M.stmts("scanned = set()")[0])
 
 
+def _v_pagerank_edges_drops_tol(tree):
+    g = M.find_func(tree, "pagerank_edges")
+    for n in ast.walk(g):
+        if isinstance(n, ast.Call) and M.src_is(n.func, "pagerank"):
+            n.keywords = [k for k in n.keywords if k.arg != "tol"]
+            return
+    raise M.Skip("pagerank call not found")
+
+
+def _v_louvain_complete_graph_shortcut(tree):
+    g = M.find_func(tree, "louvain")
+    k = [i for i, st in enumerate(g.body) if isinstance(st, ast.Assign) and M.src_is(st.targets[0], "node_to_comm") or (isinstance(st, ast.AnnAssign) and M.src_is(st.target, "node_to_comm"))]
+    if not k:
+        raise M.Skip("node_to_comm initialisation not found")
+    g.body[k[0]:k[0]] = M.stmts("if total_weight == n * (n - 1) / 2:\n    return Result([set(node_list)], 0.0, 0, n)")
+
+
 VARIANTS = [
+    M.Variant("pagerank_edges no longer forwards tol (seed C15-R)", PR, _v_pagerank_edges_drops_tol, "C15-G16"),
+    M.Variant("louvain answers a complete graph with one community and modularity 0.0 (seed C15-Q)", CM, _v_louvain_complete_graph_shortcut, "C15-O3"),
     M.Variant("shared adjacency helper skips neighbours whose own list was already read (seed C15-O)", AR, _v_adjacency_skips_scanned_neighbours, "C15-O1"),
 
     M.Variant("pagerank de-duplicates in-links but counts every listing (seed C15-B)", PR, _v_incoming_sets, "C15-O4"),
